@@ -268,3 +268,31 @@ def arm_values(body):
         # a region shared by several discriminants (A | B => ..) is reported for each
         out[v] = val
     return out
+
+
+def slice_calls(fx, body, operand, max_nodes=400):
+    """Calls (Call objects) in the backward slice of an operand: through assignments, aggregates, every argument of
+    every call encountered, and the bodies of closures handed to those calls."""
+    out = []
+    seen = set()
+    work = [op_local(operand)] if op_place(operand) is not None else []
+    n = 0
+    while work and n < max_nodes:
+        l = work.pop()
+        if l in seen or l is None:
+            continue
+        seen.add(l)
+        n += 1
+        for (bb, idx, lhs, rhs) in body.def_sites(l):
+            if isinstance(rhs, Call):
+                out.append(rhs)
+                for a in rhs.args:
+                    if op_place(a) is not None:
+                        work.append(op_local(a))
+                for cb in closure_bodies(fx, rhs):
+                    for x in tree(cb):
+                        out.extend(x.calls())
+            else:
+                for p in rv_places(rhs):
+                    work.append(pl_local(p))
+    return out
